@@ -177,4 +177,204 @@ theorem timerTail_quiet (start stop nameOffset : Nat) (body : Body) (s : BP α)
     · exact hrest
   · exact hrest
 
+/-! ### the `{value%unit}` family is read quietly -/
+
+/-- `s'` works on the tokens `qt` with the cursor at `c`, and has the tables, extensions and queue of `s0` -/
+def At (qt : List Tok) (c : Nat) (s0 s' : BP α) : Prop := s'.toks = qt ∧ s'.cur = c ∧ Same s0 s'
+
+theorem findIdx_getD_split (p : Tok → Bool) (mid rest : List Tok) (hmid : ∀ t ∈ mid, p t = false)
+    (hrest : ∀ b, rest.head? = some b → p b = true) :
+    ((mid ++ rest).findIdx? p).getD (mid ++ rest).length = mid.length := by
+  induction mid with
+  | nil =>
+    cases rest with
+    | nil => rfl
+    | cons b r => simp [List.findIdx?_cons, hrest b rfl]
+  | cons t m ih =>
+    have h1 : p t = false := hmid t (by simp)
+    have ih' := ih (fun x hx => hmid x (List.mem_cons_of_mem _ hx))
+    simp only [List.cons_append, List.findIdx?_cons, h1, Bool.false_eq_true, if_false, List.length_cons]
+    cases hf : (m ++ rest).findIdx? p with
+    | none => rw [hf] at ih'; simp at ih' ⊢; omega
+    | some k => rw [hf] at ih'; simp at ih' ⊢; omega
+
+theorem consumeWhile_at (f : TK → Bool) {qt : List Tok} {c : Nat} {s0 s : BP α} (h : At qt c s0 s)
+    (mid rest : List Tok) (hd : qt.drop c = mid ++ rest) (hmid : ∀ t ∈ mid, f t.kind = true)
+    (hrest : ∀ b, rest.head? = some b → f b.kind = false) :
+    Sat (consumeWhile (α := α) f) s (fun r s' => r = mid ∧ At qt (c + mid.length) s0 s') := by
+  unfold Sat
+  rw [consumeWhile_run]
+  dsimp only
+  rw [h.1, h.2.1, hd, findIdx_getD_split (fun t => !f t.kind) mid rest (by intro t ht; simp [hmid t ht])
+    (by intro b hb; simp [hrest b hb])]
+  exact ⟨List.take_left' rfl, rfl, rfl, h.2.2⟩
+
+theorem bpText_at (o : Nat) (l : List Tok) {qt : List Tok} {c : Nat} {s0 s : BP α} (h : At qt c s0 s) :
+    Sat (bpText (α := α) o l) s (fun r s' => r = buildText o l ∧ At qt c s0 s') := by
+  unfold bpText
+  dsimp only
+  split
+  · refine Sat.bind (Sat.modify ?_)
+    refine Sat.pure ⟨rfl, ?_⟩
+    split
+    · exact ⟨h.1, h.2.1, h.2.2⟩
+    · exact h
+  · exact Sat.pure ⟨rfl, h⟩
+
+/-- a value that is a well-formed number (or range), or a non-blank text, is read without event -/
+theorem parseValue_at {qt : List Tok} {c : Nat} {s0 s : BP α} (h : At qt c s0 s) (vt : List Tok) (t0 : Tok)
+    (h0 : vt.head? = some t0)
+    (hval : (∃ v, numOrRange (α := α) (s0.ext.has Gen.EXT_RANGE_VALUES) vt = some (.ok v)) ∨
+      (numOrRange (α := α) (s0.ext.has Gen.EXT_RANGE_VALUES) vt = none ∧
+        (buildText t0.start vt).isTextEmpty s0.cs = false)) :
+    Sat (parseValue (α := α) vt) s (fun _ s' => At qt c s0 s') := by
+  unfold parseValue
+  refine Sat.bind (Sat.currentOffset ?_)
+  dsimp only
+  refine Sat.bind (Sat.hasExt ?_)
+  rw [h.2.2.2.1]
+  rcases hval with ⟨v, hv⟩ | ⟨hnone, hne⟩
+  · rw [hv]
+    exact Sat.pure h
+  · rw [hnone]
+    dsimp only
+    refine Sat.bind ?_
+    unfold textValue
+    rw [h0]
+    simp only [Option.map_some, Option.getD_some]
+    refine Sat.bind (Sat.mono (bpText_at _ _ h) ?_)
+    rintro _ s1 ⟨rfl, h1⟩
+    refine Sat.bind (Sat.get ?_)
+    rw [h1.2.2.1, hne]
+    simp only [Bool.false_eq_true, if_false]
+    refine Sat.bind (Sat.pure ?_)
+    refine Sat.pure ?_
+    exact Sat.pure h1
+
+theorem Sat.of_eq {β : Type} {m : P α β} {s s' : BP α} {a : β} (h : m s = (a, s')) {Q : β → BP α → Prop}
+    (hq : Q a s') : Sat m s Q := by
+  unfold Sat; rw [h]; exact hq
+
+theorem getElem?_mid (vt ut : List Tok) (pct : Tok) : (vt ++ pct :: ut)[vt.length]? = some pct := by
+  simp
+
+/-- the regular quantity reader on `value % unit` -/
+theorem parseRegularQuantity_at {s0 s : BP α} (vt ut : List Tok) (pct t0 : Tok)
+    (h : At (vt ++ pct :: ut) 0 s0 s) (h0 : vt.head? = some t0) (hws : isWsComment t0.kind = false)
+    (heq : t0.kind ≠ .eq) (hvp : ∀ t ∈ vt, t.kind ≠ .percent) (hp : pct.kind = .percent)
+    (hval : (∃ v, numOrRange (α := α) (s0.ext.has Gen.EXT_RANGE_VALUES) vt = some (.ok v)) ∨
+      (numOrRange (α := α) (s0.ext.has Gen.EXT_RANGE_VALUES) vt = none ∧
+        (buildText t0.start vt).isTextEmpty s0.cs = false))
+    (hunit : (buildText pct.stop ut).isTextEmpty s0.cs = false) :
+    Sat (parseRegularQuantity (α := α)) s (fun r s' => Same s0 s' ∧
+      r.quantity.val.unit = some (buildText pct.stop ut)) := by
+  obtain ⟨vr, rfl⟩ : ∃ vr, vt = t0 :: vr := by
+    cases vt with
+    | nil => cases h0
+    | cons a r => simp only [List.head?_cons, Option.some.injEq] at h0; subst h0; exact ⟨r, rfl⟩
+  unfold parseRegularQuantity qvalue scalingLock wsComments
+  -- leading blanks: none
+  refine Sat.bind (Sat.bind (Sat.bind (Sat.mono (consumeWhile_at isWsComment h [] (t0 :: vr ++ pct :: ut) rfl
+    (by intro t ht; cases ht) (by intro b hb; simp at hb; subst hb; exact hws)) ?_)))
+  rintro _ s1 ⟨-, h1⟩
+  simp only [List.length_nil, Nat.add_zero] at h1
+  -- no `=`
+  refine Sat.bind (Sat.atK ?_)
+  have hk : ((s1.toks[s1.cur]?).map (·.kind) == some TK.eq) = false := by
+    rw [h1.1, h1.2.1]
+    simp only [List.cons_append, List.getElem?_cons_zero, Option.map_some]
+    simpa using heq
+  rw [hk]
+  simp only [Bool.false_eq_true, if_false]
+  refine Sat.pure ?_
+  -- the value tokens
+  refine Sat.bind (Sat.mono (consumeWhile_at (fun k => k != .percent) h1 (t0 :: vr) (pct :: ut) (by simp)
+    (by intro t ht; simpa using hvp t ht) (by intro b hb; simp at hb; subst hb; simp [hp])) ?_)
+  rintro _ s2 ⟨rfl, h2⟩
+  refine Sat.bind (Sat.mono (parseValue_at h2 (t0 :: vr) t0 rfl hval) ?_)
+  rintro v s3 h3
+  refine Sat.pure ?_
+  -- the unit
+  apply Sat.bind
+  apply Sat.mono (Q := fun (u : Option (Span × Text)) s' => Same s0 s' ∧
+    ∃ sep, u = some (sep, buildText pct.stop ut))
+  · refine Sat.bind (Sat.peekK ?_)
+    have hpk : (s3.toks[s3.cur]?).map (·.kind) = some TK.percent := by
+      rw [h3.1, h3.2.1]
+      simp only [Nat.zero_add]
+      rw [getElem?_mid]
+      simp [hp]
+    rw [hpk]
+    dsimp only
+    have hb : (bumpAny : P α Tok) s3 = (pct, { s3 with cur := s3.cur + 1 }) := by
+      have ht : s3.toks[s3.cur]? = some pct := by
+        rw [h3.1, h3.2.1]; simp only [Nat.zero_add]; exact getElem?_mid _ _ _
+      unfold bumpAny
+      simp only [bind, StateT.bind, nextToken_run, ht]
+      rfl
+    refine Sat.bind (Sat.of_eq hb ?_)
+    have hut : s3.toks.drop (s3.cur + 1) = ut := by
+      rw [h3.1, h3.2.1]
+      simp only [Nat.zero_add]
+      rw [List.drop_append]
+      simp
+    have hcr : (consumeRest : P α (List Tok)) ({ s3 with cur := s3.cur + 1 } : BP α) =
+        (ut, { s3 with cur := s3.cur + 1 + ut.length }) := by
+      have e : (consumeRest : P α (List Tok)) ({ s3 with cur := s3.cur + 1 } : BP α) =
+        (s3.toks.drop (s3.cur + 1), { s3 with cur := s3.cur + 1 + (s3.toks.drop (s3.cur + 1)).length }) := rfl
+      rw [e, hut]
+    refine Sat.bind (Sat.of_eq hcr ?_)
+    have h5 : At (t0 :: vr ++ pct :: ut) (s3.cur + 1 + ut.length) s0
+        ({ s3 with cur := s3.cur + 1 + ut.length } : BP α) := ⟨h3.1, rfl, h3.2.2⟩
+    refine Sat.bind (Sat.mono (bpText_at pct.stop ut h5) ?_)
+    rintro _ s6 ⟨rfl, h6⟩
+    exact Sat.pure ⟨h6.2.2, _, rfl⟩
+  · rintro unit s7 ⟨q7, sep, rfl⟩
+    refine Sat.bind (Sat.get ?_)
+    dsimp only
+    rw [q7.1, hunit]
+    simp only [Bool.false_eq_true, if_false]
+    refine Sat.bind (Sat.get ?_)
+    refine Sat.bind (Sat.mono ((FQ.tokensSpanP _ _).sat s7) ?_)
+    rintro sp s8 q8
+    exact Sat.pure ⟨q7.trans q8, rfl⟩
+
+/-- **`parse_quantity` on `value % unit` is quiet under every extension set**: the value tokens start
+    with a token that is neither blank nor `=`, contain no `%`, and are a well-formed number/range or a
+    non-blank text; the unit text is not blank -/
+theorem parseQuantity_quiet_pct (vt ut : List Tok) (pct t0 : Tok) (s : BP α)
+    (h0 : vt.head? = some t0) (hws : isWsComment t0.kind = false)
+    (heq : t0.kind ≠ .eq) (hvp : ∀ t ∈ vt, t.kind ≠ .percent) (hp : pct.kind = .percent)
+    (hval : (∃ v, numOrRange (α := α) (s.ext.has Gen.EXT_RANGE_VALUES) vt = some (.ok v)) ∨
+      (numOrRange (α := α) (s.ext.has Gen.EXT_RANGE_VALUES) vt = none ∧
+        (buildText t0.start vt).isTextEmpty s.cs = false))
+    (hunit : (buildText pct.stop ut).isTextEmpty s.cs = false) :
+    Sat (parseQuantity (α := α) (vt ++ pct :: ut)) s (fun r s' => Same s s' ∧
+      r.quantity.val.unit = some (buildText pct.stop ut)) := by
+  unfold parseQuantity
+  have hne : (vt ++ pct :: ut).isEmpty = false := by cases vt <;> rfl
+  simp only [hne, Bool.false_eq_true, if_false]
+  refine Sat.bind (Sat.get ?_)
+  refine Sat.bind (Sat.set ?_)
+  have hat : At (vt ++ pct :: ut) 0 s ({ s with toks := vt ++ pct :: ut, cur := 0 } : BP α) :=
+    by unfold At Same; exact ⟨rfl, rfl, rfl, rfl, rfl⟩
+  apply Sat.bind
+  apply Sat.mono (Q := fun (r : Option (ParsedQuantity α)) s' => r = none ∧ At (vt ++ pct :: ut) 0 s s')
+  · refine Sat.bind (Sat.hasExt ?_)
+    split
+    · apply withRecover_sat
+      unfold parseAdvancedQuantity
+      refine Sat.bind (Sat.allToks ?_)
+      have hany : (vt ++ pct :: ut).any (fun t => t.kind == .percent) = true := by
+        simp [hp]
+      simp only [hany, if_true]
+      exact Sat.pure ⟨trivial, hat⟩
+    · exact Sat.pure ⟨rfl, hat⟩
+  · rintro adv s1 ⟨rfl, h1⟩
+    dsimp only
+    refine Sat.bind (Sat.mono (parseRegularQuantity_at vt ut pct t0 h1 h0 hws heq hvp hp hval hunit) ?_)
+    rintro r s2 ⟨q2, hu⟩
+    refine Sat.bind (Sat.modify ?_)
+    exact Sat.pure ⟨q2, hu⟩
+
 end Cook
